@@ -299,6 +299,10 @@ pub fn run(args: &Args) -> i32 {
             }
             local.len() < 40
         });
+        for (what, pn, hidx) in &stats.panics {
+            let key = format!("{}:{what}", pn.key());
+            local.entry(key.clone()).or_insert(Finding { key, detail: format!("[first_ttl={first_ttl} history={hidx:?}] {what} panicked: {} at {}:{}", pn.message, pn.file, pn.line), replay: json!({"check":"C05","first_ttl":first_ttl,"max_samples":max_samples,"hops":h,"history":hidx}), weight: (hidx.len(), 0), count: 1 });
+        }
         let mut a = agg.lock().unwrap();
         a.0 += stats.states;
         a.1 += stats.transitions;
